@@ -88,7 +88,8 @@ def check_backward(case, ctx):
         gts.append(torch.tensor(w[off:off + n], dtype=dtype).reshape(o.shape))
         off += n
     tw_inputs = None if req is None else [twin.leaves[j] for j in req]
-    torch.autograd.backward(twin.outputs, grad_tensors=gts, inputs=tw_inputs)
+    if tw_inputs is None or tw_inputs:  # (torch.autograd.backward refuses an empty `inputs`: the twin then simply stays untouched)
+        torch.autograd.backward(twin.outputs, grad_tensors=gts, inputs=tw_inputs)
     requested = None if req is None else set(req)
     # scale: sum_i |w_i| |J_i|  (from the twin's reference Jacobian is expensive; bound it by |grad| magnitudes)
     vio = None
